@@ -619,8 +619,46 @@ def check_c02(tier, seed):
         rd.cleanup()
 
 
+# ----------------------------------------------------------------------------------------------
+# C11: commit under I/O faults
+# ----------------------------------------------------------------------------------------------
+def build_shim():
+    so = os.path.join(vlib.CACHE, "shim.so")
+    src = os.path.join(vlib.ROOT, "tools", "shim.c")
+    if not os.path.exists(so) or os.path.getmtime(so) < os.path.getmtime(src):
+        rc, out = vlib.sh("clang -shared -fPIC -O1 -o %s %s -ldl" % (so, src), timeout=120)
+        if rc != 0:
+            return None
+    return so
+
+
+def check_c11(tier, seed):
+    import faults
+    rep = Report("C11", tier, seed, "proof")
+    b = vlib.build(release=False)
+    gate = vlib.proof_gate("C11", b)
+    rd = RunDir()
+    failed = 0
+    try:
+        if b.cargo_ok and b.extract_ok:
+            failed = faults.fault_check(rep, rd, tier, seed, shim=build_shim())
+        rep.cov["rule"] = ("for every write / fsync / fallocate call the commits of a history issue on the database file (counted with strace): "
+                           "that call fails once (strace inject EIO / ENOSPC; LD_PRELOAD shim for a short write followed by an error); single "
+                           "faults exhaustively (sampled beyond 14 per kind in quick), pairs sampled in thorough; the history then runs 3+ more "
+                           "transactions, check, a reopen and full dumps; commit must return an I/O error (no panic) and everything observed "
+                           "afterwards must equal the reference timeline without that commit or the one with it; every later committed file "
+                           "passes inv_check; non-trivial = every run (one injected fault); distinct by (history, kind, call index)")
+        rep.sample(dict(fault="strace -P db -e inject=fsync:error=EIO:when=2", expect="commit -> err:Io; later dumps = pre or post timeline; check:ok; inv_check ok"))
+        rep.cov["traces_validated_against_impl"] = rep.cov["evaluations"]
+        fill_proof_cov(rep, gate, TRUSTED_COMMON + ["strace 6.1 fault injection, tools/shim.c (LD_PRELOAD write interposer)"])
+        gate_or_search(rep, "C11", b, gate, failed > 0)
+        return rep.finish()
+    finally:
+        rd.cleanup()
+
+
 CHECKS = {"C01": check_c01, "C02": check_c02, "C03": check_c03, "C05": check_c05, "C06": check_c06, "C07": check_c07,
-          "C08": check_c08, "C12": check_c12}
+          "C08": check_c08, "C11": check_c11, "C12": check_c12}
 
 
 def main(argv):
